@@ -37,6 +37,12 @@ class Q {
     public constructor(P p, int extra) -> Q { this.held = p; this.extra = extra; }
     public function sum() -> int { return held.v + extra; }
 }
+class Reg {
+    public qubit q;
+    public P inner;
+    public constructor(P p) -> Reg { this.inner = p; }
+    public function val() -> int { return inner.v; }
+}
 class Node {
     public Node next;
     public int k;
@@ -56,6 +62,8 @@ function churn(int n) -> int {
 function use(P p, int k) -> int { return p.v * 1000 + k; }
 function use2(P a, P b, int k) -> int { return a.v * 10000 + b.v * 100 + k; }
 function mk(int v) -> P { return new P(v); }
+function useReg(Reg r, int k) -> int { return r.inner.v * 1000 + k; }
+function mkReg(int v) -> Reg { return new Reg(new P(v)); }
 function mkq(int v, int n) -> Q { return new Q(new P(v), churn(n)); }
 function spin(int n) -> int { int i = 0; int s = 0; while (i < n) { s = s + i % 7; i = i + 1; } return s; }
 """
@@ -72,6 +80,9 @@ STMTS = [
     "for (int i{u} = 0; i{u} < {k}; i{u} = i{u} + 1) {{ P t{u} = new P(i{u} + {a}); echo(use(t{u}, churn({n}))); }}",
     "{{ P s{u} = new P({a}); P al{u} = s{u}; destroy s{u}; echo(churn({n})); echo(al{u}.v); }}",
     "echo(churn({n}));",
+    "echo(useReg(new Reg(new P({a})), churn({n})));",
+    "echo(mkReg({a}).val() + churn({n}));",
+    "Reg g{u} = mkReg({a}); echo(churn({n})); echo(g{u}.val()); destroy g{u};",
     "P d{u} = new P({a}); destroy d{u}; echo(churn({n}));",
 ]
 ERR_STMT = "P e{u} = new P({a}); P nul{u} = null; echo(churn({n})); echo(nul{u}.v);"
